@@ -45,6 +45,15 @@ CHECKS.update({
 CHECKS["C19"] = dict(engine="pool-loom", ref="§3 C19", technique="loom: exhaustive (DPOR) exploration of all thread interleavings of the real BumpPool under a controlled scheduler",
     note="loom explores sequentially consistent interleavings at the pool's mutex operations, complete for the listed thread/round counts unless a preemption bound is given; memory of the arenas is not routed through loom cells (exclusive use is established by the identity oracle); requires the cfg hook that swaps the pool's Mutex for loom's.",
     text="The real BumpPool, built with the cfg hook so that its Mutex is loom's, is driven by 2-4 threads x 1-4 rounds of get / try_get / get_with_size / get_with_capacity -> allocate a patterned slice with the pool's lifetime -> drop guard (also with a guard held across a second get), then reset / reset_to_start / drop. In every schedule: no arena identity is held by two live guards, arenas created <= peak of simultaneously outstanding gets, every slice ever allocated still carries its pattern after all guards are gone, reset leaves one empty chunk per arena and releases the rest, reset_to_start releases nothing, drop leaves nothing outstanding in the instrumented base allocator.")
+CHECKS["C06"] = dict(engine="coll-mc", ref="§3 C06", category="fault_enumeration", technique="exhaustive operation-sequence exploration of the real collections with a panic injected at every user-callback invocation, judged by a registry of drop counts",
+    note="Bounds: depth 2, initial lengths 0..4, state-dependent alphabet (all indices/ranges, iterator consumption patterns incl. forget / keep_rest), 5 collection types x sized/zero-sized elements x 4 arena configurations; at most one injected panic per run. Trusted: the element registry in harness/coll-mc/src/elem.rs.",
+    text="For every history of vector operations on BumpVec, MutBumpVec, MutBumpVecRev, FixedBumpVec and BumpBox<[T]> (sized and zero-sized elements) one run is made per user-callback invocation (Clone, closures, predicates, Iterator::next) with a panic injected exactly there, and again with Drop::drop counted as a callback; after the collection and everything moved out of it are gone every value ever created must have been dropped exactly once (never twice, never used after being moved out; leaks only after a Drop panic or an explicit forget).")
+CHECKS["C08"] = dict(engine="coll-mc", ref="§3 C08", technique="exhaustive operation-sequence exploration of the real vector types in lock-step with std::vec::Vec as reference model",
+    note="Bounds: depth 3 (quick), initial lengths, state-dependent alphabet with every index and range incl. one out-of-range value each, 5 collection types x sized/zero-sized elements x 4 arena configurations (16-byte first chunk so growth crosses chunks). The mirrored model of MutBumpVecRev follows its documentation.",
+    text="Every history of the public mutating and observing operations (push/insert/remove/swap_remove/pop/pop_if/truncate/clear/resize/resize_with/extend*/append from 5 owned-slice sources/drain/splice/extract_if/retain/dedup*/split_off/reserve*/shrink*/into_parts round trip/into_iter from both ends/map/map_in_place) up to the depth bound is executed on the real collection and on std Vec; after every operation return value, contents, length and panic/no-panic must agree, capacity >= len and >= every outstanding reserve promise, the buffer must not move while the capacity suffices, fixed vectors never change buffer or capacity and fail when full, zero-sized element vectors report unlimited capacity.")
+CHECKS["C09"] = dict(engine="str-mc", ref="§3 C09", technique="exhaustive operation-sequence exploration of the real string types in lock-step with std::string::String, plus exhaustive enumeration of decoder and C-string inputs",
+    note="Bounds: depth 2 (quick) / 3 (thorough), 6 initial strings over 1-4 byte characters and NUL, every byte index 0..=len+1, byte strings of length <= 4 over a 14-byte alphabet, u16 strings of length <= 4 over 8 code units, C-string texts of length <= 4; model = std String driven through the same operation macros.",
+    text="BumpString, MutBumpString, FixedBumpString and BumpBox<str> are driven through every operation sequence up to the depth bound with every byte index (boundary or not) and compared with std String after every operation (value, contents, len, panic parity, UTF-8 validity even after a panic, capacity >= len, earlier split-off pieces intact); from_utf8 / from_utf8_lossy / from_utf16(_lossy) are compared with std on all inputs of the bounded alphabets incl. error positions; all C-string constructors are checked on all bounded texts with embedded NULs.")
 CHECKS["C12"]["engine"] = "pure-mc + arena-mc"
 CHECKS["C12"]["text"] = "Pure part: ChunkSizeConfig compiled from /repo/src/chunk/size_config.rs is evaluated on the complete product of allocator value layouts x direction x minimum chunk size x capacity layouts (sizes up to the isize limit, aligns to 2^29) x extra granted bytes x every base-address phase: computed sizes are multiples of 16 (and of the header alignment downwards), the layout fits for every phase and min_align, growth is >= 2x-16, overflow yields None only near the address-space limit. " + CHECKS["C12"]["text"]
 
@@ -79,6 +88,8 @@ def main():
         "engines": [
             {"name": "arena-mc", "path": "harness/arena-mc", "serves_properties": [p for p in sorted(CHECKS) if "arena-mc" in CHECKS[p]["engine"]], "kind_free_text": "explicit-state exploration of real Bump/BumpScope over an instrumented deterministic base allocator"},
             {"name": "mutcoll-mc", "path": "harness/mutcoll-mc", "serves_properties": ["C15"], "kind_free_text": "the arena explorer built for configurations that carry the exclusive-borrow collection drivers"},
+            {"name": "coll-mc", "path": "harness/coll-mc", "serves_properties": ["C06", "C08"], "kind_free_text": "differential exploration of the vector-like collections against std models with callback-panic injection"},
+            {"name": "str-mc", "path": "harness/str-mc", "serves_properties": ["C09"], "kind_free_text": "differential exploration of the string types against std String; exhaustive decoder / C-string input enumeration"},
             {"name": "pool-loom", "path": "harness/pool-loom", "serves_properties": ["C19"], "kind_free_text": "loom model checking of the real BumpPool (cfg hook: loom Mutex)"},
             {"name": "pure-mc", "path": "harness/pure-mc", "serves_properties": ["C11", "C12"], "kind_free_text": "exhaustive input-lattice enumeration of the bump and chunk-size arithmetic compiled from the repository's source files"},
         ],
